@@ -618,6 +618,169 @@ theorem run_preserves_total {L S : Nat} (ops : List Op) : ∀ (s : St), Ledger L
   | nil => intro s h; exact h
   | cons op ops ih => intro s h; simp only [run]; exact ih _ (step_preserves_total s op h)
 
+/-! ### the market-token ledgers: supply = users + escrows + GLV vault, per market -/
+
+@[simp] theorem addMt_mt0 (x : User) (m a : Nat) : (x.addMt m a).mt0 = x.mt0 + (if m = 0 then a else 0) := by
+  unfold User.addMt; split <;> simp_all
+@[simp] theorem addMt_mt1 (x : User) (m a : Nat) : (x.addMt m a).mt1 = x.mt1 + (if m = 0 then 0 else a) := by
+  unfold User.addMt; split <;> simp_all
+@[simp] theorem subMt_mt0 (x : User) (m a : Nat) : (x.subMt m a).mt0 = x.mt0 - (if m = 0 then a else 0) := by
+  unfold User.subMt; split <;> simp_all
+@[simp] theorem subMt_mt1 (x : User) (m a : Nat) : (x.subMt m a).mt1 = x.mt1 - (if m = 0 then 0 else a) := by
+  unfold User.subMt; split <;> simp_all
+
+def eMt0 : Option Act → Nat | some a => if a.m = 0 then a.escMt else 0 | none => 0
+def eMt1 : Option Act → Nat | some a => if a.m = 0 then 0 else a.escMt | none => 0
+
+/-- all market tokens of market 0 / 1 outside the (always empty) burn vault: users + escrows + the GLV vault -/
+def totalMt0 (s : St) : Nat := sumU s.users (·.mt0) + sumA s.acts eMt0 + s.glvVault0
+def totalMt1 (s : St) : Nat := sumU s.users (·.mt1) + sumA s.acts eMt1 + s.glvVault1
+
+structure MtLedger (s : St) : Prop where
+  mt0 : totalMt0 s = s.mtSupply0
+  mt1 : totalMt1 s = s.mtSupply1
+
+theorem mtLedger_init (l sh : Nat) (now : Int) : MtLedger (init l sh now) := by
+  refine ⟨?_, ?_⟩ <;> simp [init, totalMt0, totalMt1, sumU, sumA, usersL, slotsL, eMt0, eMt1]
+
+theorem mt_of {s : St} (hl : MtLedger s) (s' : St) (u k : Nat) (X : User) (A : Option Act) (hu : u < 2) (hk : k < 8)
+    (husers : s'.users = fun i => if i = u then X else s.users i)
+    (hacts : s'.acts = fun i => if i = k then A else s.acts i)
+    (h0 : X.mt0 + eMt0 A + s'.glvVault0 + s.mtSupply0 = (s.users u).mt0 + eMt0 (s.acts k) + s.glvVault0 + s'.mtSupply0)
+    (h1 : X.mt1 + eMt1 A + s'.glvVault1 + s.mtSupply1 = (s.users u).mt1 + eMt1 (s.acts k) + s.glvVault1 + s'.mtSupply1) :
+    MtLedger s' := by
+  obtain ⟨l0, l1⟩ := hl
+  have a0 := sumU_update s.users (fun x => x.mt0) u X hu
+  have a1 := sumU_update s.users (fun x => x.mt1) u X hu
+  have b0 := sumA_update s.acts eMt0 k A hk
+  have b1 := sumA_update s.acts eMt1 k A hk
+  unfold totalMt0 at l0; unfold totalMt1 at l1
+  refine ⟨?_, ?_⟩
+  · unfold totalMt0; rw [husers, hacts]; omega
+  · unfold totalMt1; rw [husers, hacts]; omega
+
+theorem mt_create {s s' : St} {u k i m a b c el : Nat} {soft : Bool} (hl : MtLedger s)
+    (h : create s u k i m a b c soft el = some s') : MtLedger s' := by
+  obtain ⟨hu, hk, hi, _, hnone, hcase⟩ := create_some h
+  have hs := slotOf_lt hu hk hi
+  rcases hcase with ⟨_, ha, _, _, rfl⟩ | ⟨_, _, rfl⟩
+  · unfold User.mt at ha
+    refine mt_of hl _ u (slotOf u k i) _ _ hu hs rfl rfl ?_ ?_ <;>
+      (by_cases hm : m = 0 <;> simp only [setAct, setUser, hnone, eMt0, eMt1, subMt_mt0, subMt_mt1, hm, if_true, if_false] at ha ⊢ <;> omega)
+  · refine mt_of hl _ u (slotOf u k i) _ _ hu hs rfl rfl ?_ ?_ <;>
+      (by_cases hm : m = 0 <;> simp only [setAct, setUser, hnone, eMt0, eMt1, hm, if_true, if_false] <;> omega)
+
+theorem mt_close {s s' : St} {who : Who} {slot : Nat} (hl : MtLedger s) (h : close s who slot = some s') : MtLedger s' := by
+  obtain ⟨act, ha, hs, _, ho, rfl⟩ := close_some h
+  refine mt_of hl _ act.owner slot _ _ ho (by unfold NSLOTS at hs; omega) rfl rfl ?_ ?_ <;>
+    (by_cases hm : act.m = 0 <;> simp only [setAct, setUser, ha, eMt0, eMt1, addMt_mt0, addMt_mt1, hm, if_true, if_false] <;> omega)
+
+theorem mt_exec {s s' : St} {who : Who} {slot fee x y z paid : Nat} {throw fail : Bool} {o : Outcome}
+    (hl : MtLedger s) (h : exec s who slot fee throw fail x y z = some (s', o, paid)) : MtLedger s' := by
+  obtain ⟨act, ha, _, _, hs, _, hcase⟩ := exec_some h
+  have hs8 : slot < 8 := by unfold NSLOTS at hs; omega
+  rcases hcase with ⟨_, _, rfl⟩ | ⟨_, hc⟩
+  · refine mt_of hl _ 0 slot (s.users 0) _ (by omega) hs8 (users_id s 0) rfl ?_ ?_ <;>
+      simp only [setAct, ha, eMt0, eMt1] <;> omega
+  · rcases complete_some hc with ⟨_, rfl⟩ | ⟨_, _, h2, h3, _, _, _, rfl⟩
+    · refine mt_of hl _ 0 slot (s.users 0)
+        (some { act with state := 1, escLong := 0, escShort := 0, escMt := 0, escGlv := act.escGlv + y }) (by omega) hs8 ?_ ?_ ?_ ?_
+      · unfold setAct glvIn mintMt; split <;> exact users_id s 0
+      · unfold setAct glvIn mintMt; split <;> rfl
+      all_goals (unfold setAct glvIn mintMt; by_cases hm : act.m = 0 <;> simp only [ha, eMt0, eMt1, hm, if_true, if_false] <;> omega)
+    · unfold St.glvVault at h2; unfold St.mtSupply at h3
+      refine mt_of hl _ 0 slot (s.users 0)
+        (some { act with state := 1, escGlv := 0, escLong := act.escLong + y, escShort := act.escShort + z }) (by omega) hs8 ?_ ?_ ?_ ?_
+      · unfold setAct glvOut burnMt; split <;> exact users_id s 0
+      · unfold setAct glvOut burnMt; split <;> rfl
+      all_goals (unfold setAct glvOut burnMt; by_cases hm : act.m = 0 <;> simp only [ha, eMt0, eMt1, hm, if_true, if_false] at h2 h3 ⊢ <;> omega)
+
+theorem mt_mdep {s s' : St} {u m l sh x : Nat} {f : Bool} (hl : MtLedger s) (h : mdep s u m l sh f x = some s') : MtLedger s' := by
+  unfold mdep at h
+  by_cases h0 : u ≥ NUSERS ∨ m ≥ 2
+  · simp [h0] at h
+  · by_cases hc : (l = 0 ∧ sh = 0) ∨ (s.users u).long < l ∨ (s.users u).short < sh ∨ f = true
+    · simp [h0, hc] at h
+    · simp only [h0, hc, if_false, Option.some.injEq] at h
+      have hu : u < 2 := by unfold NUSERS at h0; omega
+      subst h
+      refine mt_of hl _ u 0 ({ (s.users u) with long := (s.users u).long - l, short := (s.users u).short - sh }.addMt m x)
+        (s.acts 0) hu (by omega) ?_ ?_ ?_ ?_
+      · unfold setUser mintMt; split <;> rfl
+      · unfold setUser mintMt; split <;> exact acts_id s 0
+      all_goals (unfold setUser mintMt; by_cases hm : m = 0 <;> simp only [addMt_mt0, addMt_mt1, hm, if_true, if_false] <;> omega)
+
+/-- same users and slots; each GLV vault and its supply move together -/
+theorem mt_same {s s' : St} (hl : MtLedger s) (hu : s'.users = s.users) (ha : s'.acts = s.acts)
+    (h0 : s'.glvVault0 + s.mtSupply0 = s.glvVault0 + s'.mtSupply0) (h1 : s'.glvVault1 + s.mtSupply1 = s.glvVault1 + s'.mtSupply1) :
+    MtLedger s' := by
+  obtain ⟨l0, l1⟩ := hl
+  unfold totalMt0 at l0; unfold totalMt1 at l1
+  refine ⟨?_, ?_⟩
+  · unfold totalMt0; rw [hu, ha]; omega
+  · unfold totalMt1; rw [hu, ha]; omega
+
+theorem mt_sexec {s s' : St} {who : Who} {i fee x paid : Nat} {throw fail : Bool} {o : Outcome}
+    (hl : MtLedger s) (h : sexec s who i fee throw fail x = some (s', o, paid)) : MtLedger s' := by
+  obtain ⟨sh, _, _, _, _, _, hcase⟩ := sexec_some h
+  rcases hcase with ⟨_, _, rfl⟩ | ⟨_, _, hv, hc⟩
+  · exact mt_same hl rfl rfl rfl rfl
+  · obtain ⟨_, hsup, rfl⟩ := scomplete_some hc
+    unfold St.glvVault at hv; unfold St.mtSupply at hsup
+    refine mt_same hl ?_ ?_ ?_ ?_
+    · unfold setShift glvIn mintMt glvOut burnMt; split <;> split <;> rfl
+    · unfold setShift glvIn mintMt glvOut burnMt; split <;> split <;> rfl
+    all_goals (unfold setShift glvIn mintMt glvOut burnMt; by_cases h1 : sh.src = 0 <;> by_cases h2 : sh.dst = 0 <;> simp only [h1, h2, if_true, if_false] at hv hsup ⊢ <;> omega)
+
+theorem step_preserves_mt (s : St) (op : Op) (hl : MtLedger s) : MtLedger (step s op).1 := by
+  cases op with
+  | tick dt => exact mt_same hl rfl rfl rfl rfl
+  | price age => exact mt_same hl rfl rfl rfl rfl
+  | mdep u m l sh f x =>
+    simp only [step]
+    cases h : mdep s u m l sh f x with
+    | none => exact hl
+    | some s' => exact mt_mdep hl h
+  | create u k i m a b c soft el =>
+    simp only [step]
+    cases h : create s u k i m a b c soft el with
+    | none => exact hl
+    | some s' => exact mt_create hl h
+  | exec who slot fee throw fail x y z =>
+    simp only [step]
+    cases h : exec s who slot fee throw fail x y z with
+    | none => exact hl
+    | some r => obtain ⟨s', o, paid⟩ := r; exact mt_exec hl h
+  | close who slot =>
+    simp only [step]
+    cases h : close s who slot with
+    | none => exact hl
+    | some s' => exact mt_close hl h
+  | screate who i a b c el =>
+    simp only [step]
+    cases h : screate s who i a b c el with
+    | none => exact hl
+    | some s' =>
+      obtain ⟨_, _, _, _, _, _, _, _, _, rfl⟩ := screate_some h
+      exact mt_same hl rfl rfl rfl rfl
+  | sexec who i fee throw fail x =>
+    simp only [step]
+    cases h : sexec s who i fee throw fail x with
+    | none => exact hl
+    | some r => obtain ⟨s', o, paid⟩ := r; exact mt_sexec hl h
+  | sclose who i =>
+    simp only [step]
+    cases h : sclose s who i with
+    | none => exact hl
+    | some s' =>
+      obtain ⟨_, _, _, rfl⟩ := sclose_some h
+      exact mt_same hl rfl rfl rfl rfl
+
+theorem run_preserves_mt (ops : List Op) : ∀ (s : St), MtLedger s → MtLedger (run s ops).1 := by
+  induction ops with
+  | nil => intro s h; exact h
+  | cons op ops ih => intro s h; simp only [run]; exact ih _ (step_preserves_mt s op h)
+
 theorem run_ok (ops : List Op) : ∀ (s : St), RecOK s → SupplyOK s → RecOK (run s ops).1 ∧ SupplyOK (run s ops).1 := by
   induction ops with
   | nil => intro s hr hs; exact ⟨hr, hs⟩
